@@ -26,6 +26,7 @@ type Config struct {
 	Deadline   time.Time
 	Trace      bool
 	SolverLog  string
+	Params     map[string]int
 	OnePerLab  bool // stop looking for further counterexamples of a label once one is found
 }
 
@@ -93,8 +94,11 @@ type Interp struct {
 	funcs     map[*ssa.Function]bool
 	curFrame  *frame
 	unknowns  int
+	symDecisions int
 	ghost     map[string]Value
 	usedStubs map[string]bool
+	capOblig, capExplore int64
+	cuts map[string]bool
 	lockLog   func(name string, mu Value)
 }
 
@@ -127,12 +131,14 @@ type Explorer struct {
 	pathEnds   map[string]int
 	shared     map[string]int
 	assumes    map[string]bool
+	cuts       map[string]bool
+	symDecisions int
 }
 
 func NewExplorer(prog *ssa.Program, pkg *ssa.Package, fn *ssa.Function, cfg *Config) *Explorer {
 	ex := &Explorer{prog: prog, pkg: pkg, fn: fn, cfg: cfg,
 		violations: map[string]*Violation{}, reached: map[string]int{}, funcs: map[string]bool{},
-		pathEnds: map[string]int{}, shared: map[string]int{}, assumes: map[string]bool{}}
+		pathEnds: map[string]int{}, shared: map[string]int{}, assumes: map[string]bool{}, cuts: map[string]bool{}}
 	ex.cond = sync.NewCond(&ex.mu)
 	return ex
 }
@@ -217,7 +223,7 @@ func (ex *Explorer) worker(id int) {
 func (ex *Explorer) runPath(sol *Solver, prefix []Decision) {
 	in := &Interp{ex: ex, prog: ex.prog, cfg: ex.cfg, tb: NewTB(), sol: sol,
 		sizes: types.SizesFor("gc", "amd64"), globals: map[*ssa.Global]*Value{}, initialised: map[*ssa.Package]bool{},
-		decisions: prefix, funcs: map[*ssa.Function]bool{}, intMode: false, trace: ex.cfg.Trace, ghost: map[string]Value{}, usedStubs: map[string]bool{}}
+		decisions: prefix, funcs: map[*ssa.Function]bool{}, intMode: false, trace: ex.cfg.Trace, ghost: map[string]Value{}, usedStubs: map[string]bool{}, cuts: map[string]bool{}}
 	sol.Push()
 	end := "return"
 	func() {
@@ -280,6 +286,10 @@ func (ex *Explorer) runPath(sol *Solver, prefix []Decision) {
 	for s := range in.usedStubs {
 		ex.assumes[s] = true
 	}
+	for s := range in.cuts {
+		ex.cuts[s] = true
+	}
+	ex.symDecisions += in.symDecisions
 	ex.mu.Unlock()
 }
 
@@ -334,6 +344,7 @@ func (in *Interp) decide(fr *frame, instr ssa.Instruction, c *Term) bool {
 	if c.IsConst() {
 		return c.C == 1
 	}
+	in.symDecisions++
 	if fr != nil && instr != nil {
 		if fr.symCount == nil {
 			fr.symCount = map[ssa.Instruction]int{}
